@@ -51,3 +51,58 @@ pub fn run() {
         }
     }
 }
+
+/// Exploratory probe (not part of the check): two writer epochs in a row, the first of which
+/// commits nothing, then an append — at host level and at store level.
+pub fn epoch_gap() {
+    use warp_core::causal_wal::{recover_filesystem_store, FilesystemWalStore, Lsn, RecoveryAccessMode, WalSegmentId};
+    let scratch = mc::scratch_root();
+    println!("=== host: submit A | reopen (nothing) | reopen, submit B | reopen");
+    let dir = fresh_dir(&scratch, "probe-gap-host");
+    let mut known = Known::default();
+    {
+        let mut h = open_host(&dir).expect("open 1");
+        println!("submit A -> {:?}", apply(&mut h, &mut known, Op::Submit(Sub::A)).map_err(|e| format!("{e:?}")));
+    }
+    {
+        let _h = open_host(&dir).expect("open 2");
+        println!("second host opened and dropped without any operation");
+    }
+    {
+        match open_host(&dir) {
+            Ok(mut h) => println!("submit B on third host -> {:?}", apply(&mut h, &mut known, Op::Submit(Sub::B)).map_err(|e| format!("{e:?}"))),
+            Err(e) => println!("third open failed {e:?}"),
+        }
+    }
+    println!("store-level recovery now: {:?}", recover_filesystem_store(&dir, RecoveryAccessMode::ReadOnly).map(|r| r.transactions.len()).map_err(|e| format!("{e:?}")));
+    match open_host(&dir) {
+        Ok(_) => println!("fourth open: Ok"),
+        Err(e) => println!("fourth open FAILED: {e:?}"),
+    }
+    println!("=== store: append S | reopen+fence (nothing) | reopen+fence, append S | recover");
+    let dir = fresh_dir(&scratch, "probe-gap-store");
+    let seg1 = WalSegmentId::from_raw(1);
+    let mut chain = walkit::store::Chain::genesis();
+    {
+        let mut s = FilesystemWalStore::open(&dir, seg1).expect("open");
+        let e = s.acquire_fresh_writer_epoch(Lsn::from_raw(0)).expect("epoch");
+        let tx = walkit::store::build_tx(walkit::store::TxKind::Submit, e.epoch_id, &chain, "gap:0").expect("tx");
+        s.append_transaction(tx.clone()).expect("append");
+        chain = chain.after(&tx);
+        println!("epoch 1 starts at {}, log ends at LSN {}", e.started_at_lsn.as_u64(), tx.commit.last_lsn.as_u64());
+    }
+    {
+        let mut s = FilesystemWalStore::open(&dir, seg1).expect("open");
+        let e = s.acquire_fresh_writer_epoch(chain.next_lsn).expect("epoch");
+        println!("epoch 2 starts at {} (commits nothing)", e.started_at_lsn.as_u64());
+    }
+    {
+        let mut s = FilesystemWalStore::open(&dir, seg1).expect("open");
+        let e = s.acquire_fresh_writer_epoch(chain.next_lsn).expect("epoch");
+        println!("epoch 3 starts at {} (log ends at {})", e.started_at_lsn.as_u64(), chain.next_lsn.as_u64() - 1);
+        chain.next_lsn = e.started_at_lsn;
+        let tx = walkit::store::build_tx(walkit::store::TxKind::Submit, e.epoch_id, &chain, "gap:1").expect("tx");
+        println!("append at the epoch's start LSN -> {:?}", s.append_transaction(tx).map_err(|e| format!("{e:?}")));
+    }
+    println!("recovery: {:?}", recover_filesystem_store(&dir, RecoveryAccessMode::ReadOnly).map(|r| r.transactions.len()).map_err(|e| format!("{e:?}")));
+}
